@@ -244,6 +244,53 @@ async fn flush_fault_rejected_append() -> Result<Option<String>, String> {
     Ok(None)
 }
 
+/// C05 / U24: the process dies while a multi-event transaction is being written: its first event reached the file, the rest
+/// (second event, commit record) did not. [append A (committed); append B = 2 events; close; wipe the file from B's second event
+/// on (what a crash before those bytes reached write(2) leaves); reopen]: B was never acknowledged, so the database must equal the
+/// model after [A]: the next append continues at partition sequence 1 / stream version 1 and scans return exactly A and it.
+async fn torn_transaction_reopen() -> Result<Option<String>, String> {
+    let dir = tempfile::tempdir().map_err(|e| e.to_string())?;
+    let key = Uuid::from_u128(0x1234_5678_9abc_def0_1122_3344_5566_7788);
+    let hash = uuid_to_partition_hash(key);
+    let ev = |exp: ExpectedVersion| NewEvent { event_id: uuid_v7_with_partition_hash(hash), stream_id: StreamId::new("a").unwrap(), stream_version: exp, event_name: "e".into(), timestamp: 1, metadata: vec![], payload: vec![9u8; 40] };
+    let open = || { let mut b = DatabaseBuilder::new(); b.segment_size_bytes(128 * 1024).total_buckets(1).bucket_ids_from_range(0..1).compression(false); b.open(dir.path()) };
+    let cut_at;
+    {
+        let db = open().map_err(|e| e.to_string())?;
+        let mut t0 = smallvec::SmallVec::<[NewEvent; 4]>::new(); t0.push(ev(ExpectedVersion::Empty));
+        db.append_events(Transaction::new(key, 0, t0).unwrap()).await.map_err(|e| e.to_string())?;
+        let mut t1 = smallvec::SmallVec::<[NewEvent; 4]>::new(); t1.push(ev(ExpectedVersion::Exact(0))); t1.push(ev(ExpectedVersion::Exact(1)));
+        let r1 = db.append_events(Transaction::new(key, 0, t1).unwrap()).await.map_err(|e| e.to_string())?;
+        cut_at = r1.offsets[1];
+        db.shutdown().await;
+    }
+    // the crash: nothing from B's second event onwards reached the file
+    fn walk(d: &std::path::Path, out: &mut Vec<std::path::PathBuf>) { if let Ok(rd) = std::fs::read_dir(d) { for e in rd.flatten() { let p = e.path(); if p.is_dir() { walk(&p, out); } else { out.push(p); } } } }
+    let mut files = vec![]; walk(dir.path(), &mut files);
+    let seg: Vec<_> = files.into_iter().filter(|p| std::fs::metadata(p).map(|m| m.len() == 128 * 1024).unwrap_or(false)).collect();
+    if seg.len() != 1 { return Err(format!("expected one 128 KiB segment file, found {}", seg.len())); }
+    {
+        use std::io::{Seek, SeekFrom, Write};
+        let mut f = std::fs::OpenOptions::new().write(true).open(&seg[0]).map_err(|e| e.to_string())?;
+        f.seek(SeekFrom::Start(cut_at)).map_err(|e| e.to_string())?;
+        f.write_all(&vec![0u8; 4096]).map_err(|e| e.to_string())?;
+        f.sync_all().map_err(|e| e.to_string())?;
+    }
+    let db = match open() { Ok(db) => db, Err(e) => return Ok(Some(format!("reopening after the crash failed: {e}"))) };
+    let mut t2 = smallvec::SmallVec::<[NewEvent; 4]>::new(); t2.push(ev(ExpectedVersion::Exact(0)));
+    let r = match db.append_events(Transaction::new(key, 0, t2).unwrap().expected_partition_sequence(ExpectedVersion::Exact(0))).await {
+        Ok(r) => r,
+        Err(e) => return Ok(Some(format!("after the reopen an append expecting the state after [A] (stream version 0, partition sequence 0) was refused: {e} - the unacknowledged transaction's first event is counted"))),
+    };
+    if r.first_partition_sequence != 1 || r.stream_versions.values().next().copied() != Some(1) { return Ok(Some(format!("after the reopen the next append got partition sequence {} / stream version {:?}, the model prescribes 1 / Some(1)", r.first_partition_sequence, r.stream_versions.values().next()))); }
+    let mut it = db.read_partition(0, 0, IterDirection::Forward).await.map_err(|e| e.to_string())?;
+    let mut seqs = vec![];
+    loop { match it.next().await { Ok(Some(c)) => { for e in c.into_iter() { seqs.push(e.partition_sequence); } if seqs.len() > 20 { break; } } Ok(None) => break, Err(e) => return Ok(Some(format!("after the reopen the partition scan failed after sequences {seqs:?}: {e}"))) } }
+    if seqs != vec![0, 1] { return Ok(Some(format!("after the reopen the partition scan returned sequences {seqs:?}, the model has [0, 1]"))); }
+    db.shutdown().await;
+    Ok(None)
+}
+
 /// C05 / U20: a partition whose events live in TWO sealed segments and not in the live one (another partition's event rolled
 /// the segment over); after a reopen the next append to it must continue its sequence and its stream's version.
 async fn sequence_continues_after_reopen() -> Result<Option<String>, String> {
@@ -282,6 +329,11 @@ pub fn search(item: &str, seed: u64, _hint: &Value) -> Option<(Value, String)> {
     if item.contains("next_partition_sequence") || item.contains("latest_sequence") || item.contains("latest_version") {
         if let Ok(Ok(Some(d))) = guarded(|| block_on(sequence_continues_after_reopen())) {
             return Some((json!({"kind": "sequence_continues_after_reopen"}), format!("128 KiB segments: 14 events of 16 KiB to partition A (two segments), one event to partition B (third segment), close, reopen, append to A: {d}")));
+        }
+    }
+    if item.contains("hydrate") {
+        if let Ok(Ok(Some(d))) = guarded(|| block_on(torn_transaction_reopen())) {
+            return Some((json!({"kind": "torn_transaction_reopen"}), format!("[append A; append B (2 events); close; wipe the segment file from B's second event on (crash before those bytes were written); reopen]: {d}")));
         }
     }
     if item.contains("handle_write") {
@@ -330,6 +382,9 @@ pub fn run(_item: &str, input: &Value) -> Option<String> {
     }
     if input["kind"].as_str() == Some("sequence_continues_after_reopen") {
         return match guarded(|| block_on(sequence_continues_after_reopen())) { Ok(Ok(Some(d))) => Some(d), _ => None };
+    }
+    if input["kind"].as_str() == Some("torn_transaction_reopen") {
+        return match guarded(|| block_on(torn_transaction_reopen())) { Ok(Ok(Some(d))) => Some(d), _ => None };
     }
     if input["kind"].as_str() == Some("flush_fault_rejected_append") {
         return match guarded(|| block_on(flush_fault_rejected_append())) { Ok(Ok(Some(d))) => Some(d), _ => None };
